@@ -2,10 +2,14 @@
    (src/passes/decompile_loop.rs: decompile_loop, decompile_if_else, decompile_break;
     src/passes/unused_labels.rs; composed as in src/passes/mod.rs: postprocess_decompiled)
    and of the meaning of a (partially) structured program: its flattening into labels and jumps
-   (src/passes/desugar_blocks.rs), given here in two forms:
-     - [flatten] + [canon]: explicit generated labels, then labels resolved to (position, time);
-     - [sem]: the same canonical stream computed directly on the structured program.
-   Executable definitions only; proofs are in Proofs/Structure*.v. *)
+   (src/passes/desugar_blocks.rs) followed by the time pass, with every label resolved to the
+   (position, time) it denotes -- [canon_of].  The flattening is fused with the resolution: [adv]
+   gives the position after a statement as desugar_blocks lays it out, [lenv] the labels with their
+   positions, [sem] the instruction stream (generated jumps of loops / cond chains / breaks carry their
+   target position directly, so no generated label names are needed).  Corr/C07.v compares [canon_of]
+   on every run with the stream obtained from the implementation's own desugar_blocks::run +
+   time_and_difficulty::run.
+   Executable definitions only; proofs are in Proofs/Struct*.v. *)
 From TV Require Import Base.I32.
 Open Scope nat_scope.
 
